@@ -117,16 +117,12 @@ theorem c16_const_sub_keys (w : World) (src : ClassSrc) (n : String) (h : n ∈ 
   simp only [List.mem_map, List.mem_filterMap] at h
   obtain ⟨⟨k, v⟩, ⟨⟨k', m⟩, hm, hsome⟩, rfl⟩ := h
   unfold resolvedFields at hm
-  obtain ⟨q, hq, hqe⟩ := List.mem_map.mp hm
-  have hk : k' = q.1 := by
-    have := congrArg Prod.fst hqe
-    exact this.symm
   cases m with
   | field d df => simp at hsome
   | const v' =>
     simp only [Option.some.injEq, Prod.mk.injEq] at hsome
-    rw [← hsome.1, hk]
-    exact List.mem_map_of_mem hq
+    rw [← hsome.1]
+    exact List.mem_map_of_mem (f := (·.1)) hm
 
 /-- exact characterisation: stub keywords = signature names  ⇔  `namesCovered` -/
 theorem c16_names_agree_iff (w : World) (src : ClassSrc) :
